@@ -170,11 +170,22 @@ def check(cx):
             cl = pf.dep_closure(l)
             consts_only = True
             starts_const0 = False
+            def const_of(o, depth=0):
+                """the constant an operand is, through copies (a parameter of an inlined helper is a copy of the argument)"""
+                k = op_const(o)
+                if k is not None:
+                    return k.get("v")
+                lo = op_local(o)
+                if lo is None or depth > 5:
+                    return None
+                defs = [st for b_ in pf.blocks for st in b_["stmts"] if st["dst"] == [lo]]
+                if len(defs) == 1 and defs[0]["rv"].get("r") in ("use", "cast") and defs[0]["rv"].get("o"):
+                    return const_of(defs[0]["rv"]["o"][0], depth + 1)
+                return None
             for b in pf.blocks:
                 for s in b["stmts"]:
                     if s["dst"][0] == l and s["rv"].get("r") == "agg" and s["rv"].get("variant") == "Start":
-                        k = op_const(s["rv"]["o"][0])
-                        if k is not None and k.get("v") == 0:
+                        if const_of(s["rv"]["o"][0]) == 0:
                             starts_const0 = True
             if starts_const0:
                 continue  # the header write at offset 0
